@@ -12,6 +12,12 @@ NOT_APPLICABLE = {
 }
 
 CLAIMS = {
+    "C04": {
+        "text": "Decides the canonical-form protocol of BD shapes and octagons on the rational instantiation, not the closure arithmetic: (R4.2) flag typestate over every CFG path of every member — no path leaves `closed` / `reduced` / `strongly closed` claimed after the matrix it describes was written (writes alias-tracked through references, iterators and proxy rows; private writers hand the obligation to their callers; each closure-preserving write is justified by a stated lemma per write event, never per function); (R4.1) 80 frozen (function, operand) pairs still close the operand before any read of its matrix contents; (R4.3) the element helpers reset closure when they change an element. Necessary for 'equal point sets compare equal whatever their history' and for exact predicates on non-closed / reduced operands. Exactness of the closure, reduction and join algorithms themselves and the optimality claims are NOT decided; three refine() call sites are listed as UNDECIDED in the evidence.",
+        "design_ref": "DESIGN.md §3 C04",
+        "note": "lemmas in rules/c04.py are mathematical statements about individual write events (pointwise max of closed matrices is closed, translation preserves closure, ...) and are trusted; Box is not covered (its emptiness is recomputed, see DESIGN)",
+        "technique": "flag typestate over clang CFG x boolean-local environment (custom dataflow) with callee summaries; dominance rule with frozen instance table",
+    },
     "C20": {
         "text": "Decides the wrapper-discipline clauses on the wrappers REGENERATED from /repo's m4 templates plus the hand-written common file (1987 extern \"C\" definitions): every body is a catch-all function-try-block; handlers map each documented exception class to its documented code, notify with the same code, are never shadowed by a base-class handler and reset timeouts; no const_cast/reinterpret_cast/C-style cast in a wrapper; every new result is owned at once by the out-parameter, every delete applies to the handle; Boolean answers are `E ? 1 : 0` un-negated; every prototype of the public headers has exactly one definition; the C++ member applied to the first handle is the one named by the wrapper, operands keep their order, and no library operation is guarded by a test on argument data; PPL_* status variables mirror the same-named C++ enumerators. Necessary for 'faithful, exception-tight wrapper'; that handle contents equal the C++ results for all inputs is C01-C17 behind the wrapper and is NOT decided here.",
         "design_ref": "DESIGN.md §3 C20",
